@@ -82,6 +82,7 @@ struct Gen {
 };
 
 static pplv::Journal J(1);
+static bool exhaustive = false;   // replay mode: exhaustive position-level probes on small trees
 
 // =================================================================================================
 //  CO_Tree histories
@@ -123,6 +124,20 @@ struct TreeH {
     std::vector<dim_t> used; dim_t maxk = 0;
     for (dim_t p = 1; p <= rs; ++p) { if (ix[p] == UNUSED) a += " _"; else { a += " " + ls((long)ix[p]); used.push_back(p); maxk = ix[p]; } }
     J.line(a);
+    if (n_probes == 0) {   // replay mode, small tree: every used hint, every key next to a stored one
+      for (size_t hi = 0; hi < used.size(); ++hi)
+        for (size_t ki = 0; ki < used.size(); ++ki)
+          for (int dlt = -1; dlt <= 1; ++dlt) {
+            dim_t key = ix[used[ki]]; if (dlt < 0 && key == 0) continue; key = (dim_t)((long)key + dlt);
+            dim_t r = (x.*get(T_bn()))(used[hi], key);
+            J.line("B " + id + " near " + ls((long)used[hi]) + " " + ls((long)key) + " " + ls((long)r));
+            if (hi <= ki) {
+              dim_t r2 = (x.*get(T_bi()))(used[hi], used[ki], key);
+              J.line("B " + id + " in " + ls((long)used[hi]) + " " + ls((long)used[ki]) + " " + ls((long)key) + " " + ls((long)r2));
+            }
+          }
+      return;
+    }
     for (unsigned q = 0; q < n_probes; ++q) {
       dim_t key;
       unsigned m = R.below(4);
@@ -196,7 +211,7 @@ struct TreeH {
       out(o, "-", t);
     }
     else { --step; return; }
-    if (R && !t.empty()) probes(t, hid + "." + ls(step), *R, (t.*get(T_rs()) <= 31 ? 6 : 3));
+    if (R && !t.empty()) probes(t, hid + "." + ls(step), *R, exhaustive && t.size() <= 8 ? 0 : (t.*get(T_rs()) <= 31 ? 6 : 3));
   }
 };
 
@@ -400,7 +415,8 @@ struct RowH {
       out(o, r, both(a));
     }
     else { --step; return; }
-    if (R && tree(S[a]).size() > 0 && R->chance(1, 3)) TreeH::probes(tree(S[a]), hid + "." + ls(step), *R, 3);
+    if (R && tree(S[a]).size() > 0 && (exhaustive || R->chance(1, 3)))
+      TreeH::probes(tree(S[a]), hid + "." + ls(step), *R, exhaustive && tree(S[a]).size() <= 8 ? 0 : 3);
   }
 };
 
@@ -846,7 +862,7 @@ static void run_replay(const char* path) {
   }
   fclose(f);
   if (ops.empty()) return;
-  std::string kind = ops[0].kind; pplv::Rng R(12345);
+  std::string kind = ops[0].kind; pplv::Rng R(12345); exhaustive = true;
   J.line("H r0 " + kind + " " + ls((long)ops.size()));
   if (kind == "tree") { TreeH H; H.hid = "r0"; H.R = &R; for (auto& o : ops) H.apply(o); }
   else if (kind == "row") { RowH H; H.hid = "r0"; H.R = &R; for (auto& o : ops) H.apply(o); }
